@@ -9,7 +9,7 @@ TLC : the property configuration (both deviations of the pinned code off) must s
 bind: each scenario is played over loopback against the real tcp.Server + Proxy / SNIProxy /
       DynamicProxy (harness/proxy/tcp/c09_test.go) and the real HTTPProxy websocket path
       (harness/proxy/c09ws_test.go) by scripted endpoints ordered by causality only"""
-import json, os, random, threading, time
+import json, os, random, subprocess, threading, time
 from concurrent.futures import ThreadPoolExecutor
 from lib import vf
 
@@ -23,6 +23,8 @@ CONSTANTS
   ResetOnError = %(reset)s
   ReadTimeoutArmsWrite = %(rtw)s
   StaleTargetOptions = %(stale)s
+  DialDeadlineStays = %(dds)s
+  RefreshClosesTunnels = %(rct)s
   PeekN = 1
   MaxC = %(maxc)d
   MaxU = %(maxu)d
@@ -47,9 +49,9 @@ INVARIANTS InOrder AllDelivered %s
 """
 
 
-def cfg(eof=False, raw=False, drop=False, abort=False, reset=False, rtw=False, stale=False, maxc=2, maxu=2, kinds=ALL_KINDS, gen=False, deadlock=True):
+def cfg(eof=False, raw=False, drop=False, abort=False, reset=False, rtw=False, stale=False, dds=False, rct=False, maxc=2, maxu=2, kinds=ALL_KINDS, gen=False, deadlock=True):
     tf = lambda b: "TRUE" if b else "FALSE"
-    return CFG % dict(eof=tf(eof), raw=tf(raw), drop=tf(drop), abort=tf(abort), reset=tf(reset), rtw=tf(rtw), stale=tf(stale), maxc=maxc, maxu=maxu,
+    return CFG % dict(eof=tf(eof), raw=tf(raw), drop=tf(drop), abort=tf(abort), reset=tf(reset), rtw=tf(rtw), stale=tf(stale), dds=tf(dds), rct=tf(rct), maxc=maxc, maxu=maxu,
                       kinds=kinds, inv=PROPS + (" GenOut" if gen else ""),
                       dl="" if deadlock else "CHECK_DEADLOCK FALSE")
 
@@ -165,9 +167,30 @@ def go_copy(ctx, cases, what, timeout=300):
     return r if ctx.need_go_ok(r, what) else None
 
 
+_fabio = {}
+
+
+def build_fabio(ctx):
+    """the real binary, for the tcp-dynamic listener scenarios (built once per run, in the background)"""
+    def job():
+        gobin, genv = vf.go_tool()
+        binp = os.path.join(ctx.tmp, "fabio")
+        b = subprocess.run([gobin, "build", "-o", binp, "."], cwd=vf.REPO, env=genv, capture_output=True, text=True)
+        return binp if b.returncode == 0 else "!" + (b.stdout + b.stderr)[-1500:]
+    _fabio[id(ctx)] = _pool.submit(job)
+
+
 def go_tcp(ctx, cases, what, lanes=8, timeout=840):
+    env = {"VERIF_IN": cases, "VERIF_LANES": lanes}
+    f = _fabio.get(id(ctx))
+    if f is not None:
+        binp = f.result()
+        if binp.startswith("!"):
+            ctx.inconclusive("fabio does not build:\n" + binp[1:])
+        else:
+            env["VERIF_FABIO_BIN"] = binp
     r = ctx.gotest("proxy/tcp", ["proxy/tcp/c09_test.go"], "^TestVerifC09$",
-                   env={"VERIF_IN": cases, "VERIF_LANES": lanes}, timeout=timeout)
+                   env=env, timeout=timeout)
     return r if ctx.need_go_ok(r, what) else None
 
 
@@ -193,7 +216,7 @@ def build_cases(ctx, sink):
                          % (len(ambiguous), ambiguous[0]))
         return None, None, 0
     rng = random.Random(ctx.seed * 7919 + 17)
-    tcp, ws, rtc = [], [], []
+    tcp, ws, rtc, idle, dynb = [], [], [], [], []
     n = 0
     for k in sorted(by):
         o = list(by[k].values())[0]
@@ -208,6 +231,23 @@ def build_cases(ctx, sink):
                 if path == "tls":
                     c.update(tlsver=rng.choice([12, 13]), cork=True)
                 tcp.append(c)
+            continue
+        if sc["dt"] == 1:
+            # proxies with a short dial timeout (proxy.dialtimeout) and a tunnel that outlives it
+            for path in {"tcp": ["tcp", "tls"] + (["dyn"] if sc["proxy"] == 0 else []), "sni": ["sni"]}[sc["kind"]]:
+                n += 1
+                c = dict(o)
+                c.update(path=path, spell=rng.choice(["tiny", "line", "mix"]), hello=rng.choice(["tls13", "tls12"]), split=rng.choice(SPLITS), id=n, conf="dt")
+                if path == "tls":
+                    c.update(tlsver=rng.choice([12, 13]), cork=True)
+                idle.append(c)
+            continue
+        if sc["refresh"] == 1:
+            # the real fabio binary with a tcp-dynamic listener (refresh 100 ms): the tunnel lives across several refreshes
+            n += 1
+            c = dict(o)
+            c.update(path="dynbin", spell=rng.choice(["tiny", "line", "mix"]), hello="tls12", split=0, id=n)
+            dynb.append(c)
             continue
         if sc["rt"] == 1:
             # listener with a read timeout; every such case waits for the timeout to pass: a seeded sample is played
@@ -240,6 +280,8 @@ def build_cases(ctx, sink):
                     c.update(tlsver=rng.choice([12, 12, 13]), cork=rng.random() < 0.8)
                 (ws if path == "ws" else tcp).append(c)
     tcp += rng.sample(rtc, min(len(rtc), 64 if not ctx.thorough else 480))
+    tcp += rng.sample(idle, min(len(idle), 64 if not ctx.thorough else 480))
+    tcp += rng.sample(dynb, min(len(dynb), 6 if not ctx.thorough else 40))
     return tcp, ws, len(by)
 
 
@@ -320,6 +362,8 @@ def run(ctx):
         "listener configurations: tcp.Server without timeouts, with a write timeout (5 s, never reached: small replies to a reading client), and - on scenarios about it - "
         "with a read timeout of 200 ms (alone and with the write timeout) where the upstream answers 500 ms after its trigger, i.e. after the client has been silent for longer than the timeout; "
         "there only the reply is judged (a read timeout may end the silent client's own direction), and a seeded sample of these scenarios is played because each waits for the timeout to pass",
+        "proxy.dialtimeout: fabio's default (30 s) on all proxies, and 200 ms on scenarios in which the upstream speaks when the tunnel is 500 ms old; "
+        "tcp-dynamic: a real fabio process (static routes: a tcp route on its own port and an http route whose host carries a port, refresh=100ms) carries a few tunnels that live across several refreshes",
         "ClientHellos on the sni path: real ones of ~200 B, ~1.5 KB, ~5 KB and ~12 KB (long ALPN lists), the long ones followed by more data than they are long",
         "sessions: up to three connections through one SNIProxy instance, ClientHellos of two sizes (~260 B, ~5 KB), opened in order and at most two at a time; "
         "TLC checks every interleaving, the harness plays a seeded sample of the schedules in which the client acts when the proxy has come to rest (it waits for the observable effect of each action)",
@@ -333,7 +377,10 @@ def run(ctx):
             ("AbortOnError", dict(abort=True, kinds='{"tcp"}', deadlock=False, maxc=1, maxu=2)),
             ("ResetOnError", dict(reset=True, kinds='{"tcp"}', deadlock=False, maxc=1, maxu=2)),
             ("ReadTimeoutArmsWrite", dict(rtw=True, kinds='{"tcp"}', deadlock=False, maxc=1, maxu=1)),
-            ("StaleTargetOptions", dict(stale=True, kinds='{"tcp"}', deadlock=False, maxc=1, maxu=1)))
+            ("StaleTargetOptions", dict(stale=True, kinds='{"tcp"}', deadlock=False, maxc=1, maxu=1)),
+            ("DialDeadlineStays", dict(dds=True, kinds='{"tcp"}', deadlock=False, maxc=1, maxu=1)),
+            ("RefreshClosesTunnels", dict(rct=True, kinds='{"tcp"}', deadlock=False, maxc=1, maxu=1)))
+    build_fabio(ctx)
     sfuts = sessions_start(ctx, "c09")
     ex = ThreadPoolExecutor(max_workers=2)
     futs = [(name, tlc_bg(ctx, ex, "Tunnel_MC", cfg_text=cfg(**kw), workers=2, timeout=300)) for name, kw in devs]
@@ -405,7 +452,7 @@ def run(ctx):
             return
         s = r.summary
         ctx.log("%s: played %d cases (%s), %d failed, %d hung, %d not tunnelled, %.0fs"
-                % (sub, s["ran"], ", ".join("%s=%s" % (k, s[k]) for k in ("tcp", "sni", "dyn", "tls", "ws", "failing_direction", "read_timeout") if k in s), s["fails"], s["hangs"], s["skipped"], r.wall))
+                % (sub, s["ran"], ", ".join("%s=%s" % (k, s[k]) for k in ("tcp", "sni", "dyn", "tls", "ws", "failing_direction", "read_timeout", "dynbin") if k in s), s["fails"], s["hangs"], s["skipped"], r.wall))
         for nrec in r.of_kind("note")[:3]:
             ctx.log("note:", nrec.get("msg"))
         if s.get("unsupported"):
